@@ -31,6 +31,33 @@ def _setup(env):
     C01._setup(env)
 
 
+def _nearest_f32(text, approx):
+    """the single-precision value nearest to the exact value the literal spells (ties to even), not the double-rounded one"""
+    import numpy as np
+    from fractions import Fraction
+    from decimal import Decimal
+    if text[0] == "$":
+        exact = Fraction(int(text[1:], 16))
+    elif text[:2] in ("0x", "0X"):
+        exact = Fraction(int(text, 16))
+    else:
+        exact = Fraction(Decimal(text))
+    g = np.float32(approx)
+    if not np.isfinite(g):
+        return float(g)
+    cands = [g, np.nextafter(g, np.float32(np.inf)), np.nextafter(g, np.float32(-np.inf))]
+    best = None
+    for c in cands:
+        if not np.isfinite(c):
+            continue
+        dist = abs(Fraction(float(c)) - exact)
+        even = (int(np.float32(c).view(np.uint32)) & 1) == 0
+        key = (dist, 0 if even else 1)
+        if best is None or key < best[0]:
+            best = (key, float(c))
+    return best[1]
+
+
 def _bits(x):
     return "%08x" % struct.unpack("I", struct.pack("f", x))[0]
 
@@ -52,7 +79,8 @@ _literals = st.one_of(
     st.integers(0, 0xFFFFFF).map(lambda i: "$%X" % i),
     st.integers(0, 0xFFFFFF).map(lambda i: "0x%x" % i),
     st.integers(0, 0xFFFFFFF).map(lambda i: "0x%X" % i),
-    st.sampled_from(["0", "00", "0.0", "1e0", "16777217", "0x0", "$0", "1e38", "3.40282e38", "1e-37", "007", "1.5e+3", "1e-40", "2.5e-39", "1.4e-45", "1e-46", "1.17549e-38", "9.99995e-41"]),
+    st.sampled_from(["0", "00", "0.0", "1e0", "16777217", "0x0", "$0", "1e38", "3.40282e38", "1e-37", "007", "1.5e+3", "1e-40", "2.5e-39", "1.4e-45", "1e-46", "1.17549e-38", "9.99995e-41",
+                     "1e-320", "1e-400", "0x8000000000000000", "0xFFFFFFFFFFFFFFFF", "$10000000000000000", "0x7FFFFFFFFFFFFFFF", "1.0000000596046447754", "16777217.0000000000001", "0.000000000000000000000000000000000000000000001"]),
 )
 _strlit = st.tuples(st.sampled_from(['"', "'"]), st.lists(st.one_of(st.sampled_from(list('"\'\n {}')), st.integers(1, 255).map(chr), st.sampled_from(list("abc"))), max_size=10))
 
@@ -165,7 +193,7 @@ def check(case, env):
             ref = float(int(t, 16))
         else:
             ref = float(t)
-        ref = f32(ref)
+        ref = _nearest_f32(t, ref)
         r.cmd(dict(op="clearvars", vm=0))
         rep = r.run("x = " + t + ";", vm=0, getvars=["x"], getvars_struct=True)
         got = rep.get("vars", {}).get("x", {}).get("value", {})
